@@ -60,7 +60,7 @@ def run_config(args):
         import cuqi
         assert os.path.realpath(cuqi.__file__).startswith(os.path.realpath(REPO)), cuqi.__file__
         from symx import core, facade
-        core.Ctx.prove_timeout_ms = int(cfg.get('timeout_ms', 20000 if tier == 'quick' else 120000))
+        core.Ctx.prove_timeout_ms = int(cfg.get('timeout_ms', 60000 if tier == 'quick' else 120000))
         fn = lambda c: H.run(cfg, c)
         hook = None
         if cfg.get('fork_budget') is not None or cfg.get('branch_timeout_ms') or cfg.get('light'):
